@@ -27,7 +27,23 @@
     `C08_cross_full_holds` (+ `…_for_functions`), `C08_cross_class_without_own_key`,
     TEST `C08_test_cross_same_named` (pinned rule vs the rule
     before 2103117 / 8b74e12).
+    every parameter KIND / parameter-list SHAPE (round 3): `C08_every_parameter_kind_shadows`,
+    `C08_shadows_with_empty_regular_args`, `C08_scope_rebinds_exactly_the_parameters`; the VISITOR:
+    `C08_lambda_opens_param_scope`, `C08_nested_def_opens_param_scope` (no case distinction on the
+    parameter list), `C08_visit_call_through_bound_param` (the recorded call's target is the
+    parameter's Name symbol, all argument lists), `C08_call_through_lambda_param_any_depth`
+    (`lambda ps₁: lambda ps₂: …: x(args)`, x a parameter of any kind of any of them),
+    `C08_call_through_nested_def_param`, TEST `C08_test_lambda_param_shapes`;
+    which FILE is module m (RattrModel/Locator.lean = `find_module_in_path`, against
+    `Spec.matchInRoot` = package, then module file), for EVERY file listing:
+    `C08_package_beats_module_file`, `C08_module_file_only_without_directory`,
+    `C08_locator_answer_is_pythons`, `C08_locator_complete_unless_plain_directory`,
+    TEST `C08_test_layouts`;
   Remaining defects (documented as theorems / counterexamples):
+    `C08_sorted_key_scope_binds_only_the_iterator` / `C08_cex_sorted_key_extra_parameter` — the
+      `sorted` analyser registers only the key lambda's first regular parameter;
+    `C08_cex_plain_directory_in_earlier_root` — a directory without `__init__.py` hides `m.py` in
+      its search-path entry (C13 finding), so a LATER entry's `m` becomes the callee;
     `C08_cex_static_method_through_param` — `Holder.sm` is a dotted KEY a parameter cannot shadow;
     (repaired by bb30ccd: `C08_cex_fallback_rule_class_without_init_takes_foreign_init` /
       `C08_cross_full_false_before_bb30ccd` are about the EARLIER rule — a class without `__init__`
@@ -39,8 +55,11 @@
       (or for / with / assignment) target named like a module-level function does not shadow it:
       `[f(v) for f in fs]` resolves `f` to the module-level Func and inlines it.
 -/
-import RattrProofs.Lemmas.VisitCtx
+import RattrProofs.Lemmas.VisitCtxBase
 import RattrProofs.Lemmas.C08Cross
+import RattrProofs.Lemmas.C08Shapes
+import RattrModel.Locator
+import RattrModel.Spec.ResolveName
 
 namespace Rattr.C08
 open Rattr Rattr.Strs Rattr.Context
@@ -688,6 +707,363 @@ theorem C08_cross_full_holds_for_functions (env : Cross.Env) (t k : FSym) (hwf :
 
 end CrossCex
 
+
+/-! ### every parameter KIND and every parameter-list SHAPE shadows; the visitor at any lambda depth
+
+`ast.arguments` keeps a parameter in one of five places (`posonlyargs`, `args`, `vararg`,
+`kwonlyargs`, `kwarg`).  `Params.all` is their concatenation and `FnA.addArguments` registers ALL of
+them; the visitor of an anonymous lambda / a nested def opens the scope and registers them for EVERY
+parameter list (there is no fast path for a list whose regular part `args` is empty).  The harness
+ties this to the code on the full product binder × parameter-list shape × call form. -/
+
+/-- wherever in `ast.arguments` the name sits — positional-only, regular, `*args`, keyword-only,
+`**kwargs` — it resolves to the parameter's own `Name` symbol inside the scope. -/
+theorem C08_every_parameter_kind_shadows (s : St) (ps : Params) (x : Str)
+    (hx : x ∈ ps.posonly ∨ x ∈ ps.args ∨ ps.vararg = some x ∨ x ∈ ps.kwonly ∨ ps.kwarg = some x) :
+    get? (FnA.addArguments { s with ctx := push s.ctx } ps).ctx x = some (nameSym x) :=
+  C08_params_shadow s ps x ((FnA.mem_params_all ps x).mpr hx)
+
+/-- in particular when the REGULAR part of the list is empty (`lambda *, f: …`, `lambda f, /: …`,
+`lambda *f: …`, `lambda **f: …`): such a lambda is not "argument-less". -/
+theorem C08_shadows_with_empty_regular_args (s : St) (ps : Params) (x : Str) (_hargs : ps.args = [])
+    (hx : x ∈ ps.posonly ∨ ps.vararg = some x ∨ x ∈ ps.kwonly ∨ ps.kwarg = some x) :
+    get? (FnA.addArguments { s with ctx := push s.ctx } ps).ctx x = some (nameSym x) := by
+  apply C08_every_parameter_kind_shadows
+  rcases hx with h | h | h | h
+  · exact Or.inl h
+  · exact Or.inr (Or.inr (Or.inl h))
+  · exact Or.inr (Or.inr (Or.inr (Or.inl h)))
+  · exact Or.inr (Or.inr (Or.inr (Or.inr h)))
+
+/-- the parameters of a list are exactly the names the scope shadows: a name is rebound by the
+scope iff it is in one of the five places (the other names resolve as outside). -/
+theorem C08_scope_rebinds_exactly_the_parameters (s : St) (ps : Params) (x : Str) :
+    (x ∈ ps.all → get? (FnA.addArguments { s with ctx := push s.ctx } ps).ctx x = some (nameSym x)) ∧
+    (x ∉ ps.all → get? (FnA.addArguments { s with ctx := push s.ctx } ps).ctx x = get? s.ctx x) :=
+  ⟨C08_params_shadow s ps x, C08_non_params_unchanged s ps x⟩
+
+/-- the visitor of an ANONYMOUS LAMBDA: for every parameter list it reports "unable to unbind
+anonymous lambdas", opens a scope, registers all parameters, visits the body there and closes the
+scope — there is no case distinction on the parameter list at all. -/
+theorem C08_lambda_opens_param_scope (env : FnA.Env) (mn : Str) (ps : Params) (body : Node) (s : St) :
+    FnA.visit env mn (.lam ps body) s =
+      FnA.bind (FnA.visit env mn body
+        (FnA.addArguments { (FnA.St.diag s (mkDiag .error "anon-lambda")) with
+                            ctx := push (FnA.St.diag s (mkDiag .error "anon-lambda")).ctx } ps))
+        (fun s => .ok { s with ctx := pop s.ctx }) := by
+  rw [FnA.visit]
+
+/-- the visitor of a NESTED DEF likewise (the def's own name is bound outside the new scope). -/
+theorem C08_nested_def_opens_param_scope (env : FnA.Env) (mn : Str) (name : Str) (ps : Params)
+    (body : List Node) (s : St) :
+    FnA.visit env mn (.funcDef name ps body) s =
+      (let s1 := FnA.St.diag s (mkDiag .error "nested-function")
+       let s2 : St := { s1 with ctx := Context.add s1.ctx (FnA.funcSym name ps.iface) }
+       FnA.bind (FnA.visitList env mn body (FnA.addArguments { s2 with ctx := push s2.ctx } ps))
+         (fun s => .ok { s with ctx := pop s.ctx })) := by
+  rw [FnA.visit]
+
+open Rattr.C08S in
+/-- a call `x(args…)` visited where the scope chain binds the plain identifier `x` to a
+parameter's `Name` symbol is RECORDED WITH THAT SYMBOL as its target (a `Name` is not callable:
+nothing can be inlined from it) — for every argument list, whenever the visit succeeds. -/
+theorem C08_visit_call_through_bound_param (env : FnA.Env) (mn x : Str) (args : List Node)
+    (kwn : List (Option Str)) (kwv : List Node) (s s' : St)
+    (hid : plainIdent x = true) (hx : xattrBuiltins.contains x = false)
+    (hb : get? s.ctx x = some (nameSym x))
+    (hq : env.analysers.contains (mn ++ '.' :: x) = false)
+    (h : FnA.visit env mn (.call (.name x .load) args kwn kwv) s = .ok s') :
+    ∃ c ∈ s'.calls, c.name = x ∧ c.target = some (nameSym x) :=
+  visit_call_of_param env mn x args kwn kwv s s' (clean_of_plainIdent hid) hx hb hq h
+
+/-- `lambda <ps₁>: lambda <ps₂>: … : body` -/
+def lamNest : List Params → Node → Node
+  | [], n => n
+  | ps :: r, n => .lam ps (lamNest r n)
+
+open Rattr.C08S in
+theorem lamNest_call_aux (env : FnA.Env) (mn x : Str) (args : List Node)
+    (kwn : List (Option Str)) (kwv : List Node)
+    (hid : plainIdent x = true) (hx : xattrBuiltins.contains x = false)
+    (hq : env.analysers.contains (mn ++ '.' :: x) = false) :
+    ∀ (pss : List Params) (s s' : St),
+      ((∃ ps ∈ pss, x ∈ ps.all) ∨ get? s.ctx x = some (nameSym x)) →
+      FnA.visit env mn (lamNest pss (.call (.name x .load) args kwn kwv)) s = .ok s' →
+      ∃ c ∈ s'.calls, c.name = x ∧ c.target = some (nameSym x)
+  | [], s, s', hp, h => by
+    rcases hp with ⟨ps, hps, _⟩ | hb
+    · cases hps
+    · exact C08_visit_call_through_bound_param env mn x args kwn kwv s s' hid hx hb hq h
+  | ps :: r, s, s', hp, h => by
+    simp only [lamNest] at h
+    rw [C08_lambda_opens_param_scope] at h
+    obtain ⟨s₁, h1, h2⟩ := FnA.bind_ok h
+    injection h2 with h2
+    subst h2
+    refine lamNest_call_aux env mn x args kwn kwv hid hx hq r _ s₁ ?_ h1
+    by_cases hin : x ∈ ps.all
+    · exact Or.inr (FnA.addArguments_shadows _ ps x hin)
+    · rcases hp with ⟨ps', hps', hx'⟩ | hb
+      · rcases List.mem_cons.mp hps' with e | e
+        · subst e; exact absurd hx' hin
+        · exact Or.inl ⟨ps', e, hx'⟩
+      · refine Or.inr ?_
+        rw [FnA.addArguments_other _ ps x hin]
+        simpa [FnA.St.diag] using hb
+
+/-- ANY NESTING DEPTH, EVERY SHAPE: inside `lambda <ps₁>: lambda <ps₂>: … : x(args…)` where `x` is
+a parameter (of any kind) of at least one of the lambdas — the others may have any parameter list,
+including none at all — the recorded call's target is the parameter's `Name` symbol: no
+module-level function / lambda / class / import of that name can be inlined for it. -/
+theorem C08_call_through_lambda_param_any_depth (env : FnA.Env) (mn x : Str) (pss : List Params)
+    (args : List Node) (kwn : List (Option Str)) (kwv : List Node) (s s' : St)
+    (hid : Rattr.C08S.plainIdent x = true) (hx : xattrBuiltins.contains x = false)
+    (hq : env.analysers.contains (mn ++ '.' :: x) = false)
+    (hp : ∃ ps ∈ pss, x ∈ ps.all)
+    (h : FnA.visit env mn (lamNest pss (.call (.name x .load) args kwn kwv)) s = .ok s') :
+    ∃ c ∈ s'.calls, c.name = x ∧ c.target = some (nameSym x) :=
+  lamNest_call_aux env mn x args kwn kwv hid hx hq pss s s' (Or.inl hp) h
+
+/-- the same for a nested `def inner(<ps>): x(args…)`. -/
+theorem C08_call_through_nested_def_param (env : FnA.Env) (mn x name : Str) (ps : Params)
+    (args : List Node) (kwn : List (Option Str)) (kwv : List Node) (s s' : St)
+    (hid : Rattr.C08S.plainIdent x = true) (hx : xattrBuiltins.contains x = false)
+    (hq : env.analysers.contains (mn ++ '.' :: x) = false)
+    (hp : x ∈ ps.all)
+    (h : FnA.visit env mn (.funcDef name ps [.call (.name x .load) args kwn kwv]) s = .ok s') :
+    ∃ c ∈ s'.calls, c.name = x ∧ c.target = some (nameSym x) := by
+  rw [C08_nested_def_opens_param_scope] at h
+  simp only [FnA.visitList] at h
+  obtain ⟨s₁, h1, h2⟩ := FnA.bind_ok h
+  injection h2 with h2
+  subst h2
+  obtain ⟨s₂, h3, h4⟩ := FnA.bind_ok h1
+  injection h4 with h4
+  subst h4
+  exact C08_visit_call_through_bound_param env mn x args kwn kwv _ s₂ hid hx
+    (FnA.addArguments_shadows _ ps x hp) hq h3
+
+/-- `def c(v, fs): apply_unknown(lambda <ps>: helper(v), fs)` next to a module-level `helper`:
+the (name, target) of the recorded calls. -/
+def lamCallTargets (ps : Params) : List (Str × Option Sym) :=
+  match FnA.analyse fenv0 [] [[("helper".toList, helperSym)]] ⟨[], ["v".toList, "fs".toList], none, [], none⟩
+      [.call (.name "apply_unknown".toList .load)
+        [.lam ps (.call (.name "helper".toList .load) [.name "v".toList .load] [] []),
+         .name "fs".toList .load] [] []] with
+  | .ok s => s.calls.map (fun c => (c.name, c.target))
+  | _ => []
+
+/-- TEST (the seeded change C08-m7 flips the first four): the lambda's ONLY parameter is
+keyword-only / positional-only / `*helper` / `**helper` — its regular part is empty — and the call
+through it still has the parameter as its target; only the genuine thunk `lambda: helper(v)`
+resolves to the module-level function. -/
+theorem C08_test_lambda_param_shapes :
+    let viaParam := [("apply_unknown".toList, none), ("helper".toList, some (nameSym "helper".toList))]
+    lamCallTargets ⟨[], [], none, ["helper".toList], none⟩ = viaParam ∧
+    lamCallTargets ⟨["helper".toList], [], none, [], none⟩ = viaParam ∧
+    lamCallTargets ⟨[], [], some "helper".toList, [], none⟩ = viaParam ∧
+    lamCallTargets ⟨[], [], none, [], some "helper".toList⟩ = viaParam ∧
+    lamCallTargets ⟨[], ["helper".toList], none, [], none⟩ = viaParam ∧
+    lamCallTargets ⟨[], [], none, [], none⟩ =
+      [("apply_unknown".toList, none), ("helper".toList, some helperSym)] := by decide +kernel
+
+/-! ### defect: the key lambda of `sorted` registers only its first regular parameter -/
+
+/-- the scope `SortedAnalyser.on_call` builds by hand for `sorted(xs, key=lambda it, …: body)` binds
+the ITERATOR only: every other name — the lambda's other parameters included — resolves as outside. -/
+theorem C08_sorted_key_scope_binds_only_the_iterator (c : Context) (it x : Str) (h : it ≠ x) :
+    get? (Context.add (push c) (nameSym it) true) x = get? c x := by
+  rw [get?_add_other _ _ _ x (by simpa [nameSym] using h)]
+  exact get?_cons_none (sc := []) rfl
+
+def fenvSorted : FnA.Env := ⟨env0, ["sorted".toList]⟩
+def sortedSym : Sym := { kind := .builtin, name := "sorted".toList, callable := true }
+
+/-- `def c(v, fs): sorted(fs, key=lambda <ps>: helper(v))` next to a module-level `helper`. -/
+def sortedKeyTargets (ps : Params) : List (Str × Option Sym) :=
+  match FnA.analyse fenvSorted [] [[("helper".toList, helperSym), ("sorted".toList, sortedSym)]]
+      ⟨[], ["v".toList, "fs".toList], none, [], none⟩
+      [.call (.name "sorted".toList .load) [.name "fs".toList .load] [some "key".toList]
+        [.lam ps (.call (.name "helper".toList .load) [.name "v".toList .load] [] [])]] with
+  | .ok s => s.calls.map (fun c => (c.name, c.target))
+  | _ => []
+
+/-- the defect end to end (kernel evaluation of `FnA.analyse`): module-level Func `helper`;
+`def c(v, fs): sorted(fs, key=lambda w, *, helper=None: helper(v))` — `helper` is a (keyword-only)
+parameter of the key lambda, yet the recorded call carries the module-level `helper` as its target
+(known finding `inlined-although-shadowed-by-sorted-key-lambda-extra-parameter:*`); with `helper` as
+THE regular parameter the target is the parameter. -/
+theorem C08_cex_sorted_key_extra_parameter :
+    sortedKeyTargets ⟨[], ["w".toList], none, ["helper".toList], none⟩ = [("helper".toList, some helperSym)] ∧
+    sortedKeyTargets ⟨["helper".toList], ["w".toList], none, [], none⟩ = [("helper".toList, some helperSym)] ∧
+    sortedKeyTargets ⟨[], ["w".toList], some "helper".toList, [], none⟩ = [("helper".toList, some helperSym)] ∧
+    sortedKeyTargets ⟨[], ["helper".toList], none, [], none⟩ =
+      [("helper".toList, some (nameSym "helper".toList))] := by decide +kernel
+
+/-! ### which FILE is "module m": package, module file, plain directory
+
+`Locator.findModuleInPath` (= `find_module_in_path`, tied to the code by C13's check and by this
+property's layout rows) against `Spec.matchInRoot`, the import system's per-directory precedence
+(regular package `m/__init__.py`, then module file `m.py`; a directory without `__init__.py` has no
+file).  No cleanliness hypothesis on the directory: these hold for EVERY file listing. -/
+
+section Layouts
+open Rattr.Locator
+
+theorem filter_nonempty_id (name : Dotted) (hmem : [] ∉ name) :
+    name.filter (fun c => decide (c ≠ [])) = name := by
+  rw [List.filter_eq_self]
+  intro a ha
+  simp only [ne_eq, decide_not, Bool.not_eq_eq_eq_not, Bool.not_true, decide_eq_false_iff_not]
+  intro h0; subst h0; exact hmem ha
+
+theorem dirExists_of_init (files : Files) (name : Dotted)
+    (h : files.contains (name ++ [initPy]) = true) : dirExists files name = true := by
+  simp only [dirExists, Bool.or_eq_true, decide_eq_true_eq, List.any_eq_true, Bool.and_eq_true]
+  right
+  refine ⟨name ++ [initPy], List.contains_iff_mem.mp h, by simp, ?_⟩
+  rw [List.isPrefixOf_iff_prefix]
+  exact List.prefix_append _ _
+
+theorem withSuffixPy_append_singleton (l : Path) (a : Str) : withSuffixPy (l ++ [a]) = l ++ [a ++ dotPy] := by
+  induction l with
+  | nil => rfl
+  | cons x r ih =>
+    cases r with
+    | nil => simp [withSuffixPy]
+    | cons y r => simp only [List.cons_append, withSuffixPy] at ih ⊢; rw [ih]
+
+theorem withSuffixPy_is_modFile (name : Dotted) (h : name ≠ []) : withSuffixPy name = Spec.modFile name := by
+  rw [← List.dropLast_concat_getLast h, withSuffixPy_append_singleton]
+  simp [Spec.modFile, dotPy]
+
+/-- a regular package wins: whenever `m/__init__.py` exists, `find_module_in_path` answers with it
+— whether or not a module file `m.py` sits next to it. -/
+theorem C08_package_beats_module_file (files : Files) (name : Dotted)
+    (hne : name ≠ [[]]) (hmem : [] ∉ name)
+    (h : files.contains (name ++ [initPy]) = true) :
+    findModuleInPath files name = some (name ++ [initPy]) := by
+  unfold findModuleInPath
+  simp only [hne, if_false, filter_nonempty_id name hmem, dirExists_of_init files name h, h, if_true]
+
+/-- the module file is answered only when there is NO directory of that name. -/
+theorem C08_module_file_only_without_directory (files : Files) (name : Dotted) (hmem : [] ∉ name)
+    (h : findModuleInPath files name = some (withSuffixPy name))
+    (hdiff : withSuffixPy name ≠ name ++ [initPy]) :
+    dirExists files name = false ∧ files.contains (name ++ [initPy]) = false := by
+  unfold findModuleInPath at h
+  split at h
+  · cases h
+  · simp only [filter_nonempty_id name hmem] at h
+    cases hd : dirExists files name with
+    | true =>
+      simp only [hd, if_true] at h
+      split at h
+      · injection h with h; exact absurd h.symm hdiff
+      · cases h
+    | false =>
+      refine ⟨rfl, ?_⟩
+      cases hc : files.contains (name ++ [initPy]) with
+      | false => rfl
+      | true => rw [dirExists_of_init files name hc] at hd; cases hd
+
+/-- SOUNDNESS for every file listing: whatever file `find_module_in_path` answers is the file the
+import system's precedence (package, then module file) picks in that directory — so a dotted call
+`m.f()` is never inlined from a file Python does not bind. -/
+theorem C08_locator_answer_is_pythons (files : Files) (name : Dotted) (p : Path)
+    (hne : name ≠ []) (hmem : [] ∉ name)
+    (h : findModuleInPath files name = some p) :
+    Spec.matchInRoot files name = some p := by
+  unfold findModuleInPath at h
+  split at h
+  · cases h
+  · simp only [filter_nonempty_id name hmem] at h
+    unfold Spec.matchInRoot
+    have hpk : Spec.pkgFile name = name ++ [initPy] := rfl
+    cases hd : dirExists files name with
+    | true =>
+      simp only [hd, if_true] at h
+      split at h
+      · rename_i hc
+        injection h with h; subst h
+        rw [hpk, if_pos hc]
+      · cases h
+    | false =>
+      simp only [hd, Bool.false_eq_true, if_false] at h
+      have hnp : files.contains (name ++ [initPy]) = false := by
+        cases hc : files.contains (name ++ [initPy]) with
+        | false => rfl
+        | true => rw [dirExists_of_init files name hc] at hd; cases hd
+      split at h
+      · rename_i hc
+        injection h with h; subst h
+        rw [withSuffixPy_is_modFile name hne] at hc ⊢
+        rw [hpk, if_neg (by rw [hnp]; exact Bool.false_ne_true), if_pos hc]
+      · cases h
+
+/-- COMPLETENESS up to the plain-directory case: what Python picks is answered, unless a directory
+of that name WITHOUT `__init__.py` hides the module file (the C13 finding
+`module-shadowed-by-non-package-directory`; rattr then reports "unable to find module" and nothing
+is inlined). -/
+theorem C08_locator_complete_unless_plain_directory (files : Files) (name : Dotted) (p : Path)
+    (hne : name ≠ []) (hne' : name ≠ [[]]) (hmem : [] ∉ name)
+    (h : Spec.matchInRoot files name = some p) :
+    findModuleInPath files name = some p ∨
+      (dirExists files name = true ∧ files.contains (name ++ [initPy]) = false ∧
+        findModuleInPath files name = none) := by
+  unfold Spec.matchInRoot at h
+  have hpk : Spec.pkgFile name = name ++ [initPy] := rfl
+  split at h
+  · rename_i hc
+    injection h with h; subst h
+    left
+    rw [hpk] at hc ⊢
+    exact C08_package_beats_module_file files name hne' hmem hc
+  · rename_i hc
+    rw [hpk] at hc
+    have hc' : files.contains (name ++ [initPy]) = false := by simpa using hc
+    split at h
+    · rename_i hm
+      injection h with h; subst h
+      unfold findModuleInPath
+      simp only [hne', if_false, filter_nonempty_id name hmem]
+      cases hd : dirExists files name with
+      | true =>
+        right
+        refine ⟨rfl, hc', ?_⟩
+        simp only [↓reduceIte, hc', Bool.false_eq_true]
+      | false =>
+        left
+        rw [← withSuffixPy_is_modFile name hne] at hm ⊢
+        simp only [Bool.false_eq_true, ↓reduceIte, hm]
+    · cases h
+
+def lmName : Dotted := ["lm".toList]
+def lmPy : Path := ["lm.py".toList]
+def lmInit : Path := ["lm".toList, "__init__.py".toList]
+
+/-- TEST (the seeded change C08-m9 flips the second and third line): the layouts of the harness. -/
+theorem C08_test_layouts :
+    findModuleInPath [lmPy] lmName = some lmPy ∧
+    findModuleInPath [lmPy, lmInit] lmName = some lmInit ∧
+    findModuleInPath [lmInit, lmPy] lmName = some lmInit ∧
+    findModuleInPath [lmInit] lmName = some lmInit ∧
+    -- a plain directory hides the module file (C13 finding): NOTHING is answered, never a wrong file
+    findModuleInPath [lmPy, ["lm".toList, "data.txt".toList]] lmName = none ∧
+    Spec.matchInRoot [lmPy, ["lm".toList, "data.txt".toList]] lmName = some lmPy ∧
+    -- a namespace portion alone: no file, for both
+    findModuleInPath [["lm".toList, "helper.py".toList]] lmName = none ∧
+    Spec.matchInRoot [["lm".toList, "helper.py".toList]] lmName = none := by decide
+
+/-- across search roots the plain-directory defect CAN change the file: root 0 holds `lm.py` next
+to a plain directory `lm/` (Python binds root 0's `lm.py`), root 1 holds another `lm.py` — rattr
+skips root 0 and answers root 1's file. -/
+theorem C08_cex_plain_directory_in_earlier_root :
+    locate [[lmPy, ["lm".toList, "data.txt".toList]], [lmPy]] lmName = [(1, lmPy)] ∧
+    Spec.firstMatch [[lmPy, ["lm".toList, "data.txt".toList]], [lmPy]] lmName = some (0, lmPy) := by decide
+
+end Layouts
+
 /-! ### non-vacuity -/
 
 example : startsWith (nameOf "@Constant.join()".toList) ['@'] = true := by decide
@@ -715,5 +1091,13 @@ example : Cross.expandedFrom envSame ⟨.func, "util".toList, ifA, impFile⟩
     = some ⟨.func, "util".toList, ifA, impFile⟩ := by decide
 example : ∃ c ∈ Cross.candidates envSame ⟨.cls, "K".toList, none, impFile⟩, c.file = impFile :=
   ⟨⟨.cls, "K".toList, ifSelfA, impFile⟩, by decide, rfl⟩
+
+-- `C08_call_through_lambda_param_any_depth` applies to `lambda q: lambda *, helper: helper(v)`
+example : ∃ ps ∈ [(⟨[], ["q".toList], none, [], none⟩ : Params), ⟨[], [], none, ["helper".toList], none⟩],
+    "helper".toList ∈ ps.all := ⟨⟨[], [], none, ["helper".toList], none⟩, by decide, by decide⟩
+example : Rattr.C08S.plainIdent "helper".toList = true ∧ xattrBuiltins.contains "helper".toList = false ∧
+    fenv0.analysers.contains ("target".toList ++ '.' :: "helper".toList) = false := by decide
+-- `C08_package_beats_module_file` / `C08_locator_answer_is_pythons` apply to the `module+package` layout
+example : [lmPy, lmInit].contains (lmName ++ [Rattr.Locator.initPy]) = true ∧ lmName ≠ [[]] ∧ [] ∉ lmName := by decide
 
 end Rattr.C08
